@@ -8,7 +8,7 @@ the arena form a forest –
   real slots whose `parent` is `i`;
 * `acyc`: there is a depth function that strictly increases from parent to child (no cycles through `parent`);
 * `root`: a real slot without a parent has no sibling;
-* `par`: the parent of a real slot is real;
+* `par`: the parent of a real slot is real and not on the free list;
 * `free`: slots on the free list are real and isolated.
 
 Temporary copies (`temp_copy`) carry a stale image of another slot's pointers; nothing is claimed about their fields,
@@ -41,7 +41,7 @@ structure Forest (s : Seg) : Prop where
   kids : ∀ i, Real s i → ∃ l, Kids s i l
   acyc : ∃ depth : Nat → Nat, ∀ j i, Real s j → (s.get j).parent = some i → depth i < depth j
   root : ∀ j, Real s j → (s.get j).parent = none → (s.get j).sibling = none
-  par : ∀ j i, Real s j → (s.get j).parent = some i → Real s i
+  par : ∀ j i, Real s j → (s.get j).parent = some i → Real s i ∧ i ∉ s.free
   free : ∀ f ∈ s.free, Real s f ∧ (s.get f).child = none ∧ (s.get f).parent = none
 
 /-! ## chains -/
